@@ -229,6 +229,7 @@ class ActorSim:
         # optional predicate on code objects: inside matching functions every *line* of an actor handler is a point at which an
         # executor thread of the same actor that is runnable at this instant may be stepped (one deviation each)
         self.line_preempt = None
+        self.duplicate_child_exited = True
 
     # ---------------------------------------------------------------- actors
     def offset_of(self, k):
@@ -338,7 +339,7 @@ class ActorSim:
         if isinstance(msg, ta.ActorExitRequest) and rec.alive:
             self.exit_actor(receiver_key, recursive=getattr(msg, "isRecursive", True))
 
-    def exit_actor(self, k, recursive=True, notify=True):
+    def exit_actor(self, k, recursive=True, notify=True, graceful=True):
         rec = self.actors.get(k)
         if rec is None or not rec.alive:
             return
@@ -356,6 +357,12 @@ class ActorSim:
         if notify and rec.parent is not None and key(rec.parent) in self.actors and self.actors[key(rec.parent)].alive:
             self.seq += 1
             self.channels.setdefault(("system", key(rec.parent)), collections.deque()).append((self.seq, ta.ChildActorExited(rec.addr)))
+            if graceful and self.duplicate_child_exited:
+                # Thespian's multiproc bases notify the parent twice when a child exits on request (once by the child itself, once when
+                # its process is reaped): observed on multiprocTCPBase and multiprocQueueBase, see tools/conformance_thespian.py.
+                # The second copy travels on its own channel, so it may arrive at any later point.
+                self.seq += 1
+                self.channels.setdefault(("system-reaper", key(rec.parent)), collections.deque()).append((self.seq, ta.ChildActorExited(rec.addr)))
         elif notify and rec.parent is not None and key(rec.parent) == key(self.external):
             self.outbox.append((CLOCK.now, ta.ChildActorExited(rec.addr)))
 
@@ -369,7 +376,7 @@ class ActorSim:
                 t.state = "killed"
         for child in list(rec.children):
             self.kill_actor(key(child))
-        self.exit_actor(k, recursive=False)
+        self.exit_actor(k, recursive=False, graceful=False)
 
     # ---------------------------------------------------------------- threads
     def _global_trace(self, frame, event, arg):
